@@ -1308,5 +1308,5 @@ func TestEnum(t *testing.T) {
 }
 
 func TestReplay(t *testing.T) {
-	core.Replay(t, parseCheck, connCheck, gridCheck, limitCheck, burstCheck, confirmCheck, redialCheck, keyShapeCheck, stallCheck)
+	core.Replay(t, parseCheck, connCheck, gridCheck, limitCheck, burstCheck, confirmCheck, redialCheck, keyShapeCheck, stallCheck, serverPingCheck)
 }
